@@ -387,6 +387,24 @@ def edits(root, sm):
                 e = at(root)
                 e.text = (e.text or "") + " stray "
             add("R12:stray-text-in-%s" % it.tag, depth + 1, f)
+            # R12: stray text after the end tag of a text-carrying child element
+            for child in ("description", "example", "metadefault"):
+                if child == "metadefault" and it.tag not in ("key", "multikey"):
+                    continue
+
+                def f(root, at=at, child=child):
+                    e = at(root)
+                    d = mk(child)
+                    d.text = "text"
+                    d.tail = " stray "
+                    e.insert(0, d)
+                add("R12:stray-text-after-%s-in-%s" % (child, it.tag), depth + 1, f)
+            if it.tag in ("key", "multikey") and any(c.tag == "default" for c in it):
+                def f(root, at=at):
+                    e = at(root)
+                    last = [c for c in e if c.tag == "default"][-1]
+                    last.tail = " stray "
+                add("R12:stray-text-after-default", depth + 1, f)
             # R14
             def f(root, at=at):
                 e = at(root)
@@ -475,6 +493,24 @@ def edits(root, sm):
         root[-1].tail = " stray after element "
     add("R12:stray-text-after-element", 0, f)
 
+    def f(root):
+        d = mk("description")
+        d.text = "text"
+        d.tail = " stray "
+        root.insert(0, d)
+    add("R12:stray-text-after-description-in-schema", 0, f)
+    for i, st in enumerate(sts):
+        def f(root, i=i):
+            d = mk("description")
+            d.text = "text"
+            d.tail = " stray "
+            root.findall("sectiontype")[i].insert(0, d)
+        add("R12:stray-text-after-description-in-sectiontype", 1, f)
+
+        def f(root, i=i):
+            st = root.findall("sectiontype")[i]
+            st.tail = " stray "
+        add("R12:stray-text-after-sectiontype", 0, f)
     def f(root):
         root.tag = "component"
     add("R13:component-as-document", 0, f)
